@@ -38,7 +38,7 @@ def task(arg):
               ('35a+36==34', tm.ne(tm.add(L['35a'], L['36']), L['34']), '1040.35a')]
         for nm, bad, line in qs:
             t1 = time.time()
-            r, inputs, m = lf.query([rm.solved, bad])
+            r, inputs, m = lf.query([rm.solved, bad] + lf.integral(['1040.' + x for x in L]))
             res['obl'].append(('ty%d/balance/%s' % (year, nm), r, time.time() - t1, 'exists non-negative inputs: return solved and not (%s)' % nm))
             if r == 'sat':
                 vals = {k: str(lf.mv(m, t)) for k, t in L.items()}
@@ -63,11 +63,16 @@ def task(arg):
         if n not in rm.summ or rm.lvar[n][0] != 'num':
             continue
         t1 = time.time()
-        r, inputs, m = lf.query([rm.solved, rm.valued[n], tm.lt(rm.lvar[n][1], tm.R(0))])
+        r, inputs, m = lf.query([rm.solved, rm.valued[n], tm.lt(rm.lvar[n][1], tm.R(0))] + lf.integral(lf.cone(n, 3)))
         res['obl'].append(('ty%d/nonneg/%s' % (year, n), r, time.time() - t1, 'exists non-negative inputs: return solved and %s < 0' % n))
         if r == 'sat':
             res['viol'].append({'key': 'ty%d:negative:%s' % (year, n), 'what': 'solved return with non-negative inputs has %s = %s < 0' % (n, float(lf.mv(m, rm.lvar[n][1]))),
                                 'replay': {'kind': 'solve', 'year': year, 'forms': forms, 'inputs': inputs, 'expect': {'kind': 'line_negative', 'line': n, 'need_solved': True}}})
+            # a witness sitting on a rounding tie may not reproduce: also look for one beyond rounding noise
+            r2, inputs2, m2 = lf.query([rm.solved, rm.valued[n], tm.lt(rm.lvar[n][1], tm.R(-2))] + lf.integral(lf.cone(n, 3)))
+            if r2 == 'sat':
+                res['viol'].append({'key': 'ty%d:negative:%s' % (year, n), 'alt': True, 'what': 'solved return with non-negative inputs has %s = %s < -2' % (n, float(lf.mv(m2, rm.lvar[n][1]))),
+                                    'replay': {'kind': 'solve', 'year': year, 'forms': forms, 'inputs': inputs2, 'expect': {'kind': 'line_negative', 'line': n, 'need_solved': True}}})
     res['stats'] = dict(lf.stats)
     return res
 
@@ -96,10 +101,14 @@ def run(tier):
         mp[r['year']] = (r.get('model_lines', 0), r.get('model_paths', 0))
         for nm, res, dt, desc in r['obl']:
             c.obligation(nm, res, dt, sample={'obligation': nm, 'query': desc, 'result': res})
+        done = set()
         for v in r['viol']:
+            if v['key'] in done:
+                continue
             out = common.run_real(['solve'], v['replay'])
             c.replays_run += 1
             if out.get('reproduced'):
+                done.add(v['key'])
                 c.violation(v['key'], v['what'] + ' [real solve: %s]' % out.get('detail'), v['replay'])
             else:
                 c.spurious += 1
